@@ -461,3 +461,30 @@ Proof.
 Qed.
 
 End Verdict.
+
+(* ------------------------------------------------------------------ *)
+(* cuts inside a blank tail                                              *)
+
+Lemma skipn_add {A} (l : list A) : forall a b, skipn (a + b) l = skipn b (skipn a l).
+Proof.
+  induction l as [|x l IH]; intros a b; [now rewrite !skipn_nil|].
+  destruct a as [|a]; [reflexivity|]. cbn [Nat.add skipn]. apply IH.
+Qed.
+
+Lemma skipn_repeat {A} (x : A) n : forall k, skipn k (repeat x n) = repeat x (n - k).
+Proof.
+  induction n as [|n IH]; intros k; [now rewrite skipn_nil|].
+  destruct k as [|k]; [reflexivity|]. cbn [repeat skipn Nat.sub]. apply IH.
+Qed.
+
+(* a line whose columns from s on are blank is not changed by a cut at or after column s *)
+Theorem cut_in_blank_tail l s c : length l = 94 -> s <= c <= 94 -> skipn s l = repeat sp (94 - s) -> cut_line l c = l.
+Proof.
+  intros Hl Hc E. apply cut_line_blank_tail; [assumption|lia|].
+  replace c with (s + (c - s)) at 1 by lia. rewrite skipn_add, E, skipn_repeat. f_equal. lia.
+Qed.
+
+Lemma skipn_app_len {A} (a b : list A) k n : length a = k -> skipn (k + n) (a ++ b) = skipn n b.
+Proof.
+  intros <-. rewrite skipn_app, skipn_all2 by lia. replace (length a + n - length a) with n by lia. reflexivity.
+Qed.
